@@ -4,9 +4,10 @@ from typing import Any, Optional
 
 import numpy
 import numpy.typing
+import numpoly
 
 from ..baseclass import PolyLike
-from ..dispatch import implements, simple_dispatch
+from ..dispatch import implements
 
 
 @implements(numpy.isfinite)
@@ -63,11 +64,15 @@ def isfinite(
         array([False,  True, False])
 
     """
-    out_ = simple_dispatch(
-        numpy_func=numpy.isfinite, inputs=(x,), where=where, **kwargs
+    # element-wise over every coefficient; not through a polynomial of booleans,
+    # whose clean-up would drop exactly the terms that are non-finite everywhere
+    x = numpoly.aspolynomial(x)
+    finite = numpy.asarray(
+        [
+            numpy.isfinite(coefficient, where=numpy.asarray(where), **kwargs)
+            for coefficient in x.coefficients
+        ]
     )
     if out is None:
-        out_ = numpy.all(numpy.asarray(out_.coefficients), axis=0)
-    else:
-        out_ = numpy.all(numpy.asarray(out_.coefficients), out=out[0], axis=0)
-    return out_
+        return numpy.all(finite, axis=0)
+    return numpy.all(finite, out=out[0], axis=0)
